@@ -2,7 +2,7 @@
 # usage: tools/mkmutant.sh <PROP>__<name> <file-relative-to-repo> <sed-expression>
 # creates mutants/<PROP>__<name>.patch from a one-line sed edit applied to a scratch worktree
 set -e
-W=${VERIF_PROBE:-/var/tmp/l21-probe}
+W=${VERIF_MUT:-/var/tmp/l21-mut}
 git -C $W checkout -q -- . 
 sed -i "$3" $W/$2
 if git -C $W diff --quiet; then echo "NO CHANGE for $1"; exit 1; fi
